@@ -55,7 +55,8 @@ def strategy(draw):
         "do_gc": draw(st.integers(0, 2)) > 0, "do_edge": draw(st.integers(0, 2)) > 0, "do_rmask": draw(st.integers(0, 2)) > 0,
         "perm": draw(st.sampled_from([[], ["target"], ["anti"], ["ref"], ["target", "anti", "ref"], ["target", "ref"]])),
         "scale": draw(st.sampled_from([0.0, 1.0, -3.0, 2.5])), "noise": draw(st.sampled_from([0.0, 0.1, 0.4])),
-        "negative": draw(st.sampled_from([None, None, None, None, None, "missing", "dup-sample", "dup-ref"])),
+        "negative": draw(st.sampled_from([None, None, None, None, None, "missing", "missing-end", "dup-sample", "dup-ref"])),
+        "extra_ref": draw(st.integers(0, 2)) > 0,
     }
 
 
@@ -125,8 +126,9 @@ def build(case):
             elif kind == "gc-hi-edge":
                 r["gc"] = 0.7
         ref.append(r)
-    # extra reference bins the sample does not have
-    for c in case["chroms"][:2]:
+    # extra reference bins the sample does not have (absent on a third of the cases: reference and sample then hold
+    # exactly the same bins, so only their row order can tell coordinate matching from positional matching)
+    for c in (case["chroms"][:2] if case.get("extra_ref", True) else []):
         ref.append({"chromosome": c, "start": 10, "end": 400, "gene": "EXTRA", "cls": "t", "log2": 0.25, "spread": 0.05,
                     "depth": 100.0, "gc": 0.5 + len(ref) * 1e-5, "rmask": 0.5 + len(ref) * 1e-5})
     ref.sort(key=lambda r: (case["chroms"].index(r["chromosome"]), r["start"]))
@@ -376,6 +378,9 @@ def check_case(case):
         if case["negative"] == "missing":
             victim = t2[len(t2) // 2]
             r2 = [x for x in r2 if (x["chromosome"], x["start"], x["end"]) != (victim["chromosome"], victim["start"], victim["end"])]
+        elif case["negative"] == "missing-end":
+            # same chromosome and start as a reference bin, another end: by (chromosome, start, end) it is absent
+            t2[len(t2) // 2]["end"] += 1
         elif case["negative"] == "dup-sample":
             t2.insert(len(t2) // 2, dict(t2[len(t2) // 2]))
         else:
@@ -454,7 +459,7 @@ def check_case(case):
                     break
     # ---- invariances
     # The weights go through biweight_midvariance, which switches formula when the residuals sum to exactly 0.0: for a class
-    # whose per-chromosome residuals are symmetric (e.g. two bins per chromosome) rounding noise decides the branch. That is a
+    # whose inlier residuals are symmetric (e.g. two bins per chromosome, outliers masked) rounding noise decides the branch. That is a
     # floating-point tie (DESIGN 2.6), so weights of such a class are not compared across variants; log2 always is.
     sym = set()
     for cls in ("t", "a"):
@@ -463,7 +468,8 @@ def check_case(case):
             if m["cls"] == cls and not is_null(g[4], m["depth"]):
                 groups.setdefault(m["chromosome"], []).append(g[4])
         res = [v - M.median(vs) for vs in groups.values() for v in vs]
-        if res and abs(sum(res)) <= 1e-9 * max(sum(abs(r) for r in res), 1e-300):
+        # the restated estimator reports both branches when the *inlier* weights sum to zero within rounding
+        if M.midvariance_branch_tied(res):
             sym.add(cls)
     cls_of = [m["cls"] for m in model]
 
